@@ -328,8 +328,19 @@ Proof.
   - destruct (calc_pipe t high_rxt high_data rtt now) as [[[t1 p] rc]|] eqn:E.
     + intro H; injection H as <- <-. split; [eapply calc_pipe_inv; eauto|discriminate].
     + intro H; injection H as <- <-. split; [exact Hinv|]. intro Hp. exfalso.
-      unfold calc_pipe in E. destruct (Z.ltb_spec (len_z (ss_segs t)) (Z.max (seq_sub high_data (ss_snd_una t)) 0)); [lia|].
+      unfold calc_pipe in E.
+      destruct (Z.ltb_spec (len_z (ss_segs t))
+                  (Z.min (Z.max (seq_sub high_data (ss_snd_una t)) 0) (len_z (ss_segs t)))); [lia|].
       destruct (pipe_loop _ _ _ _ _ _); discriminate.
+Qed.
+
+(* since the repair of D21 calc_pipe never panics, whatever high_data is *)
+Lemma calc_pipe_total t high_rxt high_data rtt now : calc_pipe t high_rxt high_data rtt now <> None.
+Proof.
+  unfold calc_pipe.
+  destruct (Z.ltb_spec (len_z (ss_segs t))
+              (Z.min (Z.max (seq_sub high_data (ss_snd_una t)) 0) (len_z (ss_segs t)))); [lia|].
+  destruct (pipe_loop _ _ _ _ _ _); discriminate.
 Qed.
 
 Lemma new_inv snd_una : 0 <= snd_una < M16 -> seg_inv (segments_new snd_una).
